@@ -235,6 +235,27 @@ let handle (case : string) (out : string) : unit =
       | None -> report_diverge "C19" case_s "real pair tree of a settings-only file"
                   "not settings_tree of its decoded items / hypotheses of C19_roundtrip_settings_partial fail"
     end;
+    (* whole files (C19_roundtrip_file and the fragment theorems): the real pair tree of every rendered file must be
+       file_tree of its decoded statements and meet the hypotheses; then what the written statements say
+       (file_says: no tree, no parsing) must be the implementation's result *)
+    (match decode_file t with
+     | Some stmts ->
+         count "file:in-image";
+         if file_okb stmts then begin
+           count ("interp:file-theorem-applies:" ^ kind);
+           let said = string_of_result (file_says stmts) in
+           if said <> impl then report_diverge "C19" case_s (short impl_raw) ("file_says: " ^ short said)
+         end else begin
+           count ("file:hypotheses-fail:" ^ outcome);
+           if kind = "REN" || kind = "SET" then
+             report_diverge "C19" case_s "rendered file" "hypotheses of C19_roundtrip_file fail on its decoded statements";
+           (* a file the implementation accepts although the written-level semantics calls it ill-formed is worth a look *)
+           if outcome = "OK" then count "file:accepted-outside-fragment"
+         end
+     | None ->
+         count "file:not-in-image";
+         if kind = "REN" || kind = "SET" then
+           report_diverge "C19" case_s "real pair tree of a rendered file" "not file_tree of its decoded statements");
     let m = string_of_result (interp t) in
     (match interp t with
      | POk _ -> count "interp:model:OK" | PErr -> count "interp:model:ERR" | PPanic _ -> count "interp:model:PANIC");
